@@ -224,6 +224,8 @@ def gen_project(rng, n_modules, size, shape=None):
         files[f"{d}nonl_mod.py"] = "NONL = 1\ndef nonl(alpha):\n    return alpha"
         files[f"{d}unicode_mod.py"] = "gr\u00f6\u00dfe = 1\ndef \u540d\u524d(alpha, \u00e9t\u00e9=2):\n    \u03b4 = alpha\n    sink(\u03b4)\n    return \u03b4\n\u540d\u524d(gr\u00f6\u00dfe)\n"
         files[f"{d}tabs_mod.py"] = "def tabs(alpha):\n\tif alpha:\n\t\treturn alpha\n\treturn None\n"
+        # a file in a legacy 8-bit encoding (written as cp1251 by the engines that honour the name; plain UTF-8 elsewhere)
+        files[f"{d}cp1251_mod.py"] = "# \u043a\u043e\u043c\u043c\u0435\u043d\u0442\u0430\u0440\u0438\u0439\nTEXT = '\u043f\u0440\u0438\u0432\u0435\u0442'\ndef legacy(alpha):\n    return alpha\n"
         files[f"{d}long_mod.py"] = "LONG = [" + ", ".join(str(i) for i in range(400)) + "]\nvv1 = LONG\nunit_init = vv1\n"
     r = rng.random()
     if shape is not None:
